@@ -47,8 +47,27 @@ func classOf(err error) (string, string) {
 	return "error", err.Error()
 }
 
+// Materialize copies the bytes the handler returned into the result. CallHandler does it once all
+// responses of the call have been received; CallHandlerDeferred leaves it to the caller (the pool
+// harness looks at the bytes only after every other caller has been served too).
+func (r *HRes) Materialize() {
+	for i := range r.Hits {
+		if r.Hits[i].Raw != nil {
+			r.Hits[i].Val = string(r.Hits[i].Raw)
+			r.Hits[i].Raw = nil
+		}
+	}
+}
+
 // CallHandler performs op through the handler interface the way an orchestrator would.
 func CallHandler(h handlers.Handler, op wire.Op) (res HRes) {
+	res = CallHandlerDeferred(h, op)
+	res.Materialize()
+	return res
+}
+
+// CallHandlerDeferred is CallHandler without looking at the returned value bytes yet.
+func CallHandlerDeferred(h handlers.Handler, op wire.Op) (res HRes) {
 	key := op.KeyBytes()
 	sr := common.SetRequest{Key: key, Data: op.Value(), Flags: op.Flags, Exptime: op.TTL}
 	switch op.Kind {
@@ -74,7 +93,7 @@ func CallHandler(h handlers.Handler, op wire.Op) (res HRes) {
 		} else if r.Miss {
 			res.Misses = 1
 		} else {
-			res.Hits = []wire.Hit{{Key: op.Key, Val: string(r.Data), Flags: r.Flags, Idx: 0}}
+			res.Hits = []wire.Hit{{Key: op.Key, Raw: nonNil(r.Data), Flags: r.Flags, Idx: 0}}
 		}
 	case "get", "mget", "gete":
 		keys := op.Keys
@@ -99,7 +118,7 @@ func CallHandler(h handlers.Handler, op wire.Op) (res HRes) {
 					} else if r.Miss {
 						res.Misses++
 					} else {
-						res.Hits = append(res.Hits, wire.Hit{Key: string(r.Key), Val: string(r.Data), Flags: r.Flags, TTL: r.Exptime, Idx: idx(r.Opaque)})
+						res.Hits = append(res.Hits, wire.Hit{Key: string(r.Key), Raw: nonNil(r.Data), Flags: r.Flags, TTL: r.Exptime, Idx: idx(r.Opaque)})
 					}
 				case e, ok := <-ec:
 					if !ok {
@@ -119,7 +138,7 @@ func CallHandler(h handlers.Handler, op wire.Op) (res HRes) {
 					} else if r.Miss {
 						res.Misses++
 					} else {
-						res.Hits = append(res.Hits, wire.Hit{Key: string(r.Key), Val: string(r.Data), Flags: r.Flags, Idx: idx(r.Opaque)})
+						res.Hits = append(res.Hits, wire.Hit{Key: string(r.Key), Raw: nonNil(r.Data), Flags: r.Flags, Idx: idx(r.Opaque)})
 					}
 				case e, ok := <-ec:
 					if !ok {
@@ -176,4 +195,11 @@ func DiffH(e, r HRes) (clause, detail string) {
 		}
 	}
 	return "", ""
+}
+
+func nonNil(b []byte) []byte {
+	if b == nil {
+		return []byte{}
+	}
+	return b
 }
